@@ -245,6 +245,7 @@ defect("example-rejected-integer", "f", type_name="Integer")(_set(2, "abc"))
 defect("example-rejected-choice", "f", type_name="Choice")(_set(2, "blue"))
 # outside fixed-width data a blank is a character like any other: " red" is not one of the choices
 defect("example-rejected-choice-leading-blank", "f", type_name="Choice", only=lambda rows: not _fixed_only(rows))(_set(2, " red"))
+defect("example-too-long-for-its-length", "f", type_name="Text")(_set(2, "abcd"))
 defect("example-rejected-datetime", "f", type_name="DateTime")(_set(2, "31.02.2003"))
 defect("example-rejected-regex", "f", type_name="RegEx")(_set(2, "zzz"))
 
